@@ -249,6 +249,11 @@ func c03Surgery(v interface{}, how int) interface{} {
 			// a base64url value: decode, confuse the JSON inside (if it is JSON) or cut the bytes, encode again
 			raw, err := base64.RawURLEncoding.DecodeString(strings.TrimRight(t, "="))
 			if err != nil {
+				// not base64url (a DID, a key id, a URL ...): valid NON-ASCII characters in the middle of it (a decoder that
+				// indexes a table with the rune, or slices by byte count, meets them here), or a trailing pad
+				if len(t)%2 == 0 {
+					return t[:len(t)/2] + "Ā€😀" + t[len(t)/2:]
+				}
 				return t + "="
 			}
 			var inner interface{}
@@ -649,6 +654,12 @@ func c03DIDKey(variant string, k, r int) string {
 		confused = "did:key:z" + string(b)
 	case 3:
 		confused = "did:key:" + id
+		if k%2 == 1 {
+			// a valid character outside ASCII somewhere in the fingerprint (the base58 library indexes a 256-entry table
+			// with the RUNE)
+			pos := k % len(id)
+			confused = "did:key:z" + id[:pos] + []string{"Ā", "€", "😀", "ſ"}[(k/2)%4] + id[pos:]
+		}
 	default:
 		// a valid base58 string of arbitrary bytes: multicodec varints that overflow, short keys
 		raw := []byte{0xff, 0xff, 0xff, 0xff, 0xff, 0xff, 0xff, 0xff, 0xff, 0xff, 0x01, byte(k), byte(r)}
